@@ -624,8 +624,8 @@ def ref_step(ins, iref, f, raw_out=None):
             x, y = a, iref[1]
         elif op == 'divf':
             x, y = a, Ref(Fr(unhex(ex)))
-        else:
-            x, y = Ref(Fr(unhex(ex))), a
+        else:   # public float numerator: the code rounds it to a multiple of 2^-f first (mul by a float)
+            x, y = Ref(Fr(round_half_even(Fr(unhex(ex)) * (1 << f)), 1 << f)), a
         if abs(y.R) - y.E * u <= 0:
             return taint()
         q = x.R / y.R
@@ -785,7 +785,7 @@ class Gen:
         rng = self.rng
         ops = self.ops or (['add', 'sub', 'neg', 'mul', 'mul', 'sq', 'muli', 'mulf', 'mulf', 'addi', 'rsubi', 'addf',
                              'lshift', 'cmp', 'cmp', 'ifelse', 'ifswap', 'sum', 'inprod', 'inprod', 'prod', 'all',
-                             'vadd', 'vsub', 'smul', 'smul', 'schur', 'schur', 'ifelsel', 'ifswapl',
+                             'vadd', 'vaddi', 'vsub', 'smul', 'smul', 'schur', 'schur', 'ifelsel', 'ifswapl',
                              'matprod', 'pow', 'abs', 'min', 'max', 'sgn', 'inputl', 'pos', 'subi', 'fromint']
                             + (['div', 'divf', 'rdivf'] if self.allow_div else [])
                             + (['sin', 'cos'] if self.allow_trig else []))
@@ -851,6 +851,8 @@ class Gen:
             return self.try_ins([op, [Am, Bm], 1 if tr else 0])
         if op == 'pow':
             return self.try_ins([op, self.pick(1), rng.choice([1, 2, 2, 3, 4, 5, 6])])
+        if op == 'trunc':
+            return self.try_ins([op, self.pick(1), rng.choice([1, 2, self.f - 1, self.f, rng.randrange(1, self.f + 1)])])
         if op == 'inputl':
             vals, refs = [], []
             for _ in range(n):
@@ -923,7 +925,7 @@ def prop_bounds(ins, ivals, lf):
         elif op == 'pow':
             bound = ex * (1 + abs(refs[0].R)) ** (ex - 1)
         elif op in ('div', 'divf', 'rdivf'):
-            x = refs[0].R if op != 'rdivf' else Fr(unhex(ex))
+            x = refs[0].R if op != 'rdivf' else Fr(round_half_even(Fr(unhex(ex)) * (1 << f)), 1 << f)
             y = refs[1].R if op == 'div' else (Fr(unhex(ex)) if op == 'divf' else refs[0].R)
             if abs(y) < Fr(1, 1 << f):
                 return None
@@ -986,7 +988,7 @@ def check_program(prog, res, lf, res_ff=None, want=('flags', 'bounds', 'forced')
                 for j, ((raw, fl), (exact, bound, literal)) in enumerate(zip(outs, pb)):
                     err = abs(raw - exact)
                     wide = l > 2 * f + 1 and op in ('div', 'divf', 'rdivf')
-                    if err > bound:
+                    if err > bound or (op == 'trunc' and err >= 1):
                         kind = 'div-wide' if wide else 'bound'
                         viol.append((kind, f'instruction {idx} ({op}): result {raw}/2^{f} deviates {float(err):.6g} units from '
                                            f'the exact value {float(exact):.6g}/2^{f}, allowed {float(bound):.6g}',
